@@ -4437,6 +4437,7 @@ class ResponseFuture(object):
     _start_time = None
     _metrics = None
     _paging_state = None
+    _page_no = 0
     _custom_payload = None
     _warnings = None
     _timer = None
@@ -4630,7 +4631,7 @@ class ResponseFuture(object):
             result_meta = self.prepared_statement.result_metadata if self.prepared_statement else []
 
             if cb is None:
-                cb = partial(self._set_result, host, connection, pool)
+                cb = partial(self._set_result_of_page, self._page_no, host, connection, pool)
 
             self.request_encoded_size = connection.send_msg(message, request_id, cb=cb,
                                                             encoder=self._protocol_handler.encode_message,
@@ -4723,6 +4724,9 @@ class ResponseFuture(object):
 
         self._make_query_plan()
         self.message.paging_state = self._paging_state
+        # answers still on their way for the page we already hold (other speculative
+        # executions, retries) must not be taken for the page requested now
+        self._page_no += 1
         self._event.clear()
         self._final_result = _NOT_SET
         self._final_exception = None
@@ -4740,6 +4744,15 @@ class ResponseFuture(object):
         if request_id is None:
             # try to submit the original prepared statement on some other host
             self.send_request()
+
+    def _set_result_of_page(self, page_no, host, connection, pool, response):
+        if page_no != self._page_no:
+            # the answer of an execution of an earlier page fetch, whose outcome was
+            # delivered long ago: only give the stream back
+            if pool:
+                pool.return_connection(connection)
+            return
+        self._set_result(host, connection, pool, response)
 
     def _set_result(self, host, connection, pool, response):
         try:
@@ -4778,13 +4791,16 @@ class ResponseFuture(object):
                         self.session.cluster.control_connection,
                         self, connection, **response.schema_change_event)
                 elif response.kind == RESULT_KIND_ROWS:
-                    self._paging_state = response.paging_state
-                    self._col_names = response.column_names
-                    self._col_types = response.column_types
+                    page_info = (response.paging_state, response.column_names, response.column_types)
                     if getattr(self.message, 'continuous_paging_options', None):
+                        self._paging_state, self._col_names, self._col_types = page_info
                         self._handle_continuous_paging_first_response(connection, response)
                     else:
-                        self._set_final_result(self.row_factory(response.column_names, response.parsed_rows))
+                        # the paging state moves on only together with the page being delivered:
+                        # an answer that lost against another outcome of this page fetch
+                        # (speculative execution, client timeout, error) changes nothing
+                        self._set_final_result(self.row_factory(response.column_names, response.parsed_rows),
+                                               page_info=page_info)
                 elif response.kind == RESULT_KIND_VOID:
                     self._set_final_result(None)
                 else:
@@ -4963,7 +4979,7 @@ class ResponseFuture(object):
                 "Got unexpected response type when preparing "
                 "statement on host %s: %s" % (host, response)))
 
-    def _set_final_result(self, response):
+    def _set_final_result(self, response, page_info=None):
         self._cancel_timer()
         if self._metrics is not None:
             self._metrics.request_timer.addValue(time.time() - self._start_time)
@@ -4974,6 +4990,8 @@ class ResponseFuture(object):
                 # delivered, e.g. by another speculative execution or by the
                 # client timeout: the first outcome wins
                 return
+            if page_info is not None:
+                self._paging_state, self._col_names, self._col_types = page_info
             self._final_result = response
             # save off current callbacks inside lock for execution outside it
             # -- prevents case where _final_result is set, then a callback is
